@@ -47,12 +47,13 @@ RHS == [i \in Idx |-> D(<<i, 1>>, <<2 - i, 1>>)]
 MatOfRe(m) == [i \in Idx |-> [j \in Idx |-> D(<<m[i][j], 1>>, EpsOf(i, j))]]
 
 VARIABLES a0,      \* the original matrix
-          a, p, pcount, i, imax, pc
-vars == <<a0, a, p, pcount, i, imax, pc>>
+          a, p, pcount, i, imax, pc,
+          dy       \* history: every entry computed so far is a dyadic rational, i.e. the float run is exact
+vars == <<a0, a, p, pcount, i, imax, pc, dy>>
 
 Init ==
     /\ \E m \in [Idx -> [Idx -> ReSet]] : a0 = MatOfRe(m)
-    /\ a = a0 /\ p = [k \in Idx |-> k] /\ pcount = NN /\ i = 1 /\ imax = 1 /\ pc = "pivot"
+    /\ a = a0 /\ p = [k \in Idx |-> k] /\ pcount = NN /\ i = 1 /\ imax = 1 /\ pc = "pivot" /\ dy = TRUE
 
 \* for k in i..n { if |a[k,i]|.re > max_a { max_a = ..; imax = k } }  : first strict maximum
 PivotRow(m, col) ==
@@ -69,14 +70,14 @@ Pivot ==
                 ELSE /\ imax' = r
                      /\ pc' = IF r # i THEN "swap" ELSE "elim"
                      /\ UNCHANGED <<a, p, pcount, i>>
-    /\ UNCHANGED a0
+    /\ UNCHANGED <<a0, dy>>
 Swap ==
     /\ pc = "swap"
     /\ p' = [p EXCEPT ![i] = p[imax], ![imax] = p[i]]
     /\ a' = [a EXCEPT ![i] = a[imax], ![imax] = a[i]]
     /\ pcount' = pcount + 1
     /\ pc' = "elim"
-    /\ UNCHANGED <<a0, i, imax>>
+    /\ UNCHANGED <<a0, i, imax, dy>>
 \* for j in i+1..n { a[j,i] = a[j,i] / a[i,i]; for k in i+1..n { a[j,k] = a[j,k] - a[j,i] * a[i,k] } }
 Elim ==
     /\ pc = "elim"
@@ -84,6 +85,7 @@ Elim ==
                 IF r <= i THEN a[r][c]
                 ELSE LET l == a[r][i] (/) a[i][i]
                      IN  IF c = i THEN l ELSE IF c < i THEN a[r][c] ELSE a[r][c] (-) (l (.) a[i][c])]]
+    /\ dy' = (dy /\ \A r \in Idx, c \in Idx : QIsDyadic(a'[r][c].re) /\ QIsDyadic(a'[r][c].eps))
     /\ i' = i + 1
     /\ pc' = "pivot"
     /\ UNCHANGED <<a0, p, pcount, imax>>
@@ -152,7 +154,7 @@ SortedAscending == pc = "pivot" /\ i = 1 => SortOK
 \* replay cases for the real LU: matrix, outcome, permutation, determinant, solution of A x = RHS
 ExportLU ==
     pc \in {"done", "fail"} =>
-        PrintT(<<"LU", ToJson([a |-> a0, b |-> RHS, status |-> pc,
+        PrintT(<<"LU", ToJson([a |-> a0, b |-> RHS, status |-> pc, dyadic |-> dy,
                               p |-> IF pc = "done" THEN p ELSE <<>>,
                               swaps |-> pcount - NN,
                               det |-> IF pc = "done" THEN DetB ELSE Zero,
